@@ -1,6 +1,14 @@
 import DracoProofs.EbBasic
 import DracoProofs.EbEncCoders
 import DracoProofs.EbEncPredict
+import DracoProofs.EbLayer
+import DracoProofs.EbIntSqrt
+import DracoProofs.EbCTIso
+import DracoProofs.EbHyps
+import DracoProofs.EbChain
+import DracoProofs.EbSeams
+import DracoProofs.EbCreateProps
+import DracoProofs.EbAttViews
 /-
   C01 (staging) — facts about the Edgebreaker mesh decoder model (DracoModel/Eb*.lean).
   The model is tied to the real decoder by the correspondence of C01 (tools/props/ebcases.py);
@@ -14,7 +22,7 @@ import DracoProofs.EbEncPredict
   * corner arithmetic used by every table operation (`Next`/`Previous` are mutually inverse,
     stay inside the face, `Next³ = id`).
   * the standard traversal decoder yields only the five topology symbols, ≤ 3 bits each.
-  * `IntSqrt` is the floor square root on an initial segment (n < 200) (by evaluation).
+  * `IntSqrt` is the floor square root of every 64-bit argument (`intSqrt_floor`).
 -/
 namespace Draco.C01Eb
 open Draco Draco.Eb
@@ -45,14 +53,14 @@ example :
     Except.pure, raise, inv, throw, throwThe, MonadExceptOf.throw]
 
 /-- `Previous(Next(c)) = c` -/
-theorem corner_prev_next (c : Nat) (h : c < inv) : Eb.prevC (Eb.nextC c) = c := prevC_nextC c h
+theorem corner_prev_next (c : Nat) (h : c < inv) : Eb.prevC (Eb.nextC c) = c := Eb.prevC_nextC c h
 /-- `Next(Previous(c)) = c` -/
-theorem corner_next_prev (c : Nat) (h : c < inv) : Eb.nextC (Eb.prevC c) = c := nextC_prevC c h
+theorem corner_next_prev (c : Nat) (h : c < inv) : Eb.nextC (Eb.prevC c) = c := Eb.nextC_prevC c h
 /-- `Next(Next(Next(c))) = c` -/
-theorem corner_next_three (c : Nat) (h : c < inv) : Eb.nextC (Eb.nextC (Eb.nextC c)) = c := nextC_three c h
+theorem corner_next_three (c : Nat) (h : c < inv) : Eb.nextC (Eb.nextC (Eb.nextC c)) = c := Eb.nextC_three c h
 /-- `Next` and `Previous` stay in the face `c / 3` -/
 theorem corner_same_face (c : Nat) (h : c ≠ inv) : Eb.nextC c / 3 = c / 3 ∧ Eb.prevC c / 3 = c / 3 :=
-  ⟨nextC_face c h, prevC_face c h⟩
+  ⟨Eb.nextC_face c h, Eb.prevC_face c h⟩
 
 example : Eb.prevC (Eb.nextC 5) = 5 ∧ Eb.nextC 5 = 3 ∧ Eb.nextC (Eb.nextC (Eb.nextC 4)) = 4 := by decide
 
@@ -74,6 +82,11 @@ set_option maxRecDepth 20000 in
 theorem intSqrt_floor_small : ∀ n < 200, intSqrt n ^ 2 ≤ n ∧ n < (intSqrt n + 1) ^ 2 := by
   decide
 
+/-- `IntSqrt` (the integer Newton iteration of the tex-coords predictor) is the floor square root of every
+    `uint64_t` argument -/
+theorem intSqrt_floor (n : Nat) (h : n < 2 ^ 64) : intSqrt n ^ 2 ≤ n ∧ n < (intSqrt n + 1) ^ 2 :=
+  intSqrt_correct n h
+
 example : intSqrt 1000000 = 1000 ∧ intSqrt 999999 = 999 ∧ intSqrt (2 ^ 64 - 1) = 2 ^ 32 - 1 := by
   decide
 
@@ -88,17 +101,34 @@ example : intSqrt 1000000 = 1000 ∧ intSqrt 999999 = 999 ∧ intSqrt (2 ^ 64 - 
   (a) the side coders of the connectivity: standard traversal symbols, every `RAnsBitEncoder` buffer (start
       faces, attribute seams, normal flips, tex-coord orientations, crease flags), the topology split event
       table, one valence context;
-  (b) toward `eb_roundtrip_conditional` (IF CTIso THEN the decoded geometry satisfies RoundTripOK): the
-      prediction layer — on the SAME mesh data the decoder loops invert the encoder loops for delta coding
-      (wrap transform), delta coding of normals (canonicalized octahedron transform) and PARALLELOGRAM
-      prediction, whenever the encoder loop succeeds.  Missing for the full implication (all evaluated per case,
-      none proved): `seams_correspond` (the seam bits decoded along the decoder's face order mark the images of
-      the encoder's seam edges), `traversal_equivariant` (the depth-first / prediction-degree traversals of two
-      CTIso tables started from corresponding corners visit corresponding corners, so that the mesh data of
-      both sides correspond), the inverses of the constrained multi-parallelogram and tex-coord
-      schemes (`constrained_multi_roundtrip`, `tex_coords_roundtrip`),
-      `assign_points_correspond` (the decoder's point ids realise the encoder's corner → attribute value
-      relation) and the step from there to `Spec.checkCore`.
+  (b) toward `eb_roundtrip_conditional` (IF CTIso THEN the decoded geometry satisfies RoundTripOK):
+      * the prediction layer on the SAME mesh data — the decoder loops invert the encoder loops for delta coding
+        (wrap transform), delta coding of normals (canonicalized octahedron transform), PARALLELOGRAM,
+        CONSTRAINED MULTI-PARALLELOGRAM (every choice of crease flags), TEX-COORDS PORTABLE (`IntSqrt` correct
+        for every 64-bit argument: `intSqrt_floor`) and GEOMETRIC NORMAL prediction, whenever the encoder loop
+        succeeds;
+      * `eb_prediction_layer_roundtrip`: the whole attribute value block (scheme bytes, symbol / raw coded
+        corrections, crease / orientation / flip bit buffers, wrap / octahedron transform data) of every scheme
+        is read back by `decodeIntegerValuesEb`, which consumes exactly the block;
+      * `eb_value_block_conditional`: encoder and decoder each on their OWN mesh data — IF the executable checker
+        `valueBlockHyps` (block invariance under the change of mesh data, the decoder's parent attribute, ranges,
+        counts) reports nothing THEN the block is read back; the op evaluates the checker on every block
+        (`hyp-ok`);
+      * `eb_traversal_equivariant`, `eb_prediction_equivariant`, `eb_value_block_conditional_iso`: the depth-first and
+        prediction-degree traversers visit corresponding corners on isomorphic views; the value block does not depend
+        on which of two isomorphic mesh data the encoder runs on; hence from the isomorphism of the VIEWS
+        (`tvIso` checked; for the base table it follows from CTIso: `tviso_of_ctiso`) the decoder on its own
+        sequence reads back the block the encoder wrote on its own sequence;
+      * `eb_seams_correspond`, `eb_seam_flags_correspond`, `eb_att_views_iso`: from CTIso and the bit buffers to the
+        decoder's seam flags, and from there (equivariance of `RecomputeVertices`) to the isomorphism of the
+        ATTRIBUTE views; `eb_base_view_structural`: `OppInvol` / `Hedge` from `CornerTable.create`;
+      * `eb_ctiso_sound`: the Boolean `ctIso` the op evaluates implies the Prop-level isomorphism `CTIso`.
+      Missing for the full implication (evaluated per case — `rt-ok`, `iso-ok`, `hyp-ok` —, not proved):
+      `assign_points_correspond` (the
+      decoder's point ids realise the encoder's corner → attribute value relation — the checked hypothesis
+      `decParent` is its instance for the parent attribute), the connectivity round trip itself (that the decoder
+      builds a table with `ctIso`), the attribute section as a whole and the step from the portable values to
+      `Spec.checkCore`.
   (c) `eb_encoded_counts_partial`: under CTIso the decoder's face count is the number of faces the encoder
       processed; that this is `num_faces − NumDegeneratedFaces` (what the encoder reports) and the statement
       about points are evaluated (`counts-ok`), not proved.
@@ -293,6 +323,428 @@ example : ∃ fd k, geometricNormalDecode exTriangle exPositions exOcta (Leaf.oc
   obtain ⟨k, hk⟩ := eb_prediction_geometric_normal_roundtrip exTriangle exPositions 4 exOcta (by decide) #[7, 7, 3, 5, 10, 4] 3 rfl rfl
     (by decide) _ _ exNormalEnc d hy
   exact ⟨d, k, hk⟩
+
+
+open Draco.EbEnc in
+/-- (b) **constrained multi-parallelogram prediction**: for every choice of crease flags the encoder may take
+    (`crease`: what the entropy tracker decided), whenever the encoder loop succeeds the decoder loop — given the
+    encoder's corrections and the encoder's flags in stream order (`creaseStreamOrder`, what
+    `encodeCreaseFlags` writes: `encodeCreaseFlags_eq`) — returns the values -/
+theorem eb_prediction_constrained_multi_roundtrip (md : MeshData) (wt : WrapT) (lo hi : Int) (nc n : Nat)
+    (crease : Array (Array Bool)) (data corr : Array Int) (isCrease : Array (Array Bool))
+    (hnc : 0 < nc) (hn : 0 < n) (hd : md.d2c.size = n) (hsz : data.size = n * nc)
+    (hinit : Wrap.init lo hi = some wt) (hlo : -2 ^ 31 ≤ lo) (hhi : hi < 2 ^ 31)
+    (hrange : ∀ i (h : i < data.size), lo ≤ data[i] ∧ data[i] ≤ hi)
+    (henc : constrainedMultiEncode md wt nc crease data = .ok (corr, isCrease)) :
+    ∃ maxPar, constrainedMultiDecode md wt nc (creaseStreamOrder isCrease) corr = .ok (data, maxPar) :=
+  constrained_multi_roundtrip md wt lo hi nc n crease data corr isCrease hnc hn hd hsz hinit hlo hhi hrange henc
+
+open Draco.EbEnc in
+/-- non-vacuity: on `exMesh` with the choice "use the parallelogram of the last entry" (run `exCMEnc`) -/
+example : ∃ maxPar, constrainedMultiDecode exMeshCM ⟨0, 20, 21, 10, -10⟩ 1
+    (creaseStreamOrder #[#[false], #[], #[], #[]]) #[3, 4, 5, -5] = .ok (#[3, 7, 12, 16], maxPar) :=
+  eb_prediction_constrained_multi_roundtrip exMeshCM ⟨0, 20, 21, 10, -10⟩ 0 20 1 4 #[#[false], #[], #[], #[]]
+    #[3, 7, 12, 16] _ _ (by decide) (by decide) (by decide) (by decide) (by decide) (by decide) (by decide) (by decide)
+    exCMEnc
+
+open Draco.EbEnc in
+/-- (b) **tex-coords (portable) prediction**: whenever the encoder loop succeeds, the decoder loop — given the
+    encoder's corrections and orientation flags — returns the values.  (Both sides compute the same integer
+    predictor, `IntSqrt` included; the encoder picks the orientation, the decoder follows the flag.) -/
+theorem eb_prediction_tex_coords_roundtrip (md : MeshData) (ps : PosSource) (wt : WrapT) (lo hi : Int) (n : Nat)
+    (data : Array Int) (hd : md.d2c.size = n) (hsz : data.size = n * 2)
+    (hinit : Wrap.init lo hi = some wt) (hlo : -2 ^ 31 ≤ lo) (hhi : hi < 2 ^ 31)
+    (hrange : ∀ i (h : i < data.size), lo ≤ data[i] ∧ data[i] ≤ hi)
+    (corr : Array Int) (orient : Array Bool) (henc : texCoordsEncode md ps wt 2 data = .ok (corr, orient)) :
+    ∃ used, texCoordsDecode md ps wt 2 orient corr = .ok (data, used) :=
+  tex_coords_roundtrip md ps wt lo hi n data hd hsz hinit hlo hhi hrange corr orient henc
+
+open Draco.EbEnc in
+set_option maxRecDepth 16000 in
+/-- the triangle of `exTriangle` with uv coordinates (0,0), (8,0), (1,7): the third entry is predicted from the
+    positions (`IntSqrt 256`), orientation flag `false` -/
+theorem exTexEnc : texCoordsEncode exTriangle exPositions ⟨0, 8, 9, 4, -4⟩ 2 #[0, 0, 8, 0, 1, 7] =
+    .ok (#[0, 0, -1, 0, -3, 3], #[false]) := by
+  simp [texCoordsEncode, texPredictEnc, exTriangle, exPositions, PosSource.get, TView.vertex,
+    corrWrap, rd, rdI, wrI, inv, Eb.nextC, Eb.prevC, dot3, i64,
+    Std.Legacy.Range.forIn_eq_forIn_range', Std.Legacy.Range.size, bind, Except.bind, pure, Except.pure, wrap32,
+    List.range'_succ, Wrap.encCorr, Wrap.clamp, Eb.iabs, (by decide : intSqrt 256 = 16)]
+  decide
+
+open Draco.EbEnc in
+/-- non-vacuity -/
+example : ∃ used, texCoordsDecode exTriangle exPositions ⟨0, 8, 9, 4, -4⟩ 2 #[false] #[0, 0, -1, 0, -3, 3] =
+    .ok (#[0, 0, 8, 0, 1, 7], used) :=
+  eb_prediction_tex_coords_roundtrip exTriangle exPositions ⟨0, 8, 9, 4, -4⟩ 0 8 3 #[0, 0, 8, 0, 1, 7] rfl rfl
+    (by decide) (by decide) (by decide) (by decide) _ _ exTexEnc
+
+open Draco.EbEnc in
+/-- (b) **the attribute value block of an Edgebreaker stream** (`SequentialIntegerAttributeEncoder::EncodeValues`
+    with a mesh prediction scheme → `SequentialIntegerAttributeDecoder::DecodeValues`, bitstream 2.2): for EVERY
+    scheme the encoder can select — none, difference, parallelogram, constrained multi-parallelogram, tex-coords
+    portable with the wrap transform; difference and geometric normal with the canonicalized octahedron
+    transform — and whatever choices it takes (entropy coder, crease flags, `zero_prob`), the decoder, given the
+    same `MeshData` and the same parent attribute, reads the scheme bytes, the coded corrections (C08), the
+    prediction data (bit buffers, transform data: C16) back, returns the portable values and stops exactly
+    behind the block.  Hypotheses (each evaluated on every generated case by the op `ebenc`, `hyp-ok`):
+    `hk` — the (encoder kind, scheme) pairs `createScheme` produces; `hpar` — the decoder's parent attribute is
+    the encoder's; `hr` — portable values are int32; `hk3` — normals are canonical grid points with valid
+    quantization bits; `hd`/`hcorners`/`hF` — one entry per data id, not more entries than corners, corner
+    count below 2³¹; `hcrease` — (constrained multi-parallelogram) the decoder's `num_flags ≤ num_corners` check passes on the
+    encoder's flags. -/
+theorem eb_prediction_layer_roundtrip (ch : EbChoices) (o : SeqEnc.EncOpts) (attId kind nc numValues n attComponents : Nat)
+    (scheme : PScheme) (md : MeshData) (pointIds : Array Nat) (parentE : Option ParentAtt) (parentD : Option Parent)
+    (portable : Array Int) (sch' : PScheme) (bs : Bytes)
+    (hnv : numValues ≠ 0) (hk : SchemeKindOK kind scheme) (hpar : ParentAgree parentE parentD)
+    (hnc : 0 < nc) (hn : 0 < n) (hlen : portable.size = n * nc) (hd : md.d2c.size = n) (h32 : n * nc < 2 ^ 32)
+    (hr : ∀ x ∈ portable.toList, -2 ^ 31 ≤ x ∧ x < 2 ^ 31)
+    (hk3 : kind = 3 → NormalsOK o attId nc n portable)
+    (hF : 3 * md.t.numFaces + 3 < 2 ^ 31) (hcorners : n ≤ 3 * md.t.numFaces)
+    (hcrease : scheme = .constrainedMulti → CreaseCountOK ch attId nc md portable)
+    (henc : encodeIntegerValuesEb ch o attId kind nc numValues scheme md pointIds parentE portable = .ok (sch', bs))
+    (s : DSt) (extra : Bytes) (hs : s.rest = bs ++ extra) (hsv : s.version = 514) :
+    ∃ s', decodeIntegerValuesEb kind n nc attComponents md pointIds parentD s =
+      (some (portable, TransformData.none), s') ∧ s'.rest = extra :=
+  let ⟨s', h1, h2, _⟩ := (runs_encodeIntegerValuesEb ch o attId kind nc numValues n attComponents scheme md pointIds
+    parentE parentD portable sch' bs hnv hk hpar hnc hn hlen hd h32 hr hk3 hF hcorners hcrease henc).2.run s extra hs hsv
+  ⟨s', h1, h2⟩
+
+open Draco.EbEnc in
+def exCh : EbChoices :=
+  ⟨⟨fun n0 tot => (512 * n0 + tot) / (2 * tot), ProbOracle.exact, fun _ => .tagged⟩, fun _ => .tagged, fun _ => #[]⟩
+open Draco.EbEnc in
+/-- the position attribute of `exTriangle` as the encoder (portable attribute) and the decoder hold it -/
+def exParentE : ParentAtt := ⟨1, 3, 9, #[0, 1, 2], #[0, 0, 0, 4, 0, 0, 0, 4, 0]⟩
+def exParentD : Parent := ⟨3, #[0, 1, 2], #[0, 0, 0, 4, 0, 0, 0, 4, 0], true, #[], false⟩
+
+open Draco.EbEnc in
+set_option maxRecDepth 16000 in
+/-- the value block of the uv attribute of `exTexEnc` (tex-coords prediction, raw value bytes) -/
+theorem exTexBlock : encodeIntegerValuesEb exCh ({ builtin := false } : SeqEnc.EncOpts) 0 1 2 3 .texCoords exTriangle #[1, 2, 0]
+    (some exParentE) #[0, 0, 8, 0, 1, 7] =
+    .ok (.texCoords, [5, 1, 0, 1, 0, 0, 1, 0, 5, 6, 1, 0, 0, 0, 255, 1, 17, 0, 0, 0, 0, 8, 0, 0, 0]) := by
+  have h1 : effectiveScheme .texCoords #[0, 0, 8, 0, 1, 7] = .texCoords := by rfl
+  have h2 : encParentSource .texCoords #[1, 2, 0] (some exParentE) = .ok exPositions := by rfl
+  have h3 : wrapInitOf #[0, 0, 8, 0, 1, 7] = some ⟨0, 8, 9, 4, -4⟩ := by decide
+  unfold encodeIntegerValuesEb encodeSchemeBlock
+  simp only [h1, h2, h3, exTexEnc, bind, Except.bind, pure, Except.pure]
+  rfl
+
+open Draco.EbEnc in
+/-- non-vacuity: the decoder reads the 25 bytes of `exTexBlock` (method 5, wrap transform, raw corrections, one
+    orientation bit in a rANS buffer, wrap bounds) back as the uv values, whatever follows (`[9]`) -/
+example : ∃ s', decodeIntegerValuesEb 1 3 2 2 exTriangle #[1, 2, 0] (some exParentD)
+      { rest := [5, 1, 0, 1, 0, 0, 1, 0, 5, 6, 1, 0, 0, 0, 255, 1, 17, 0, 0, 0, 0, 8, 0, 0, 0] ++ [9], version := 514 } =
+      (some (#[0, 0, 8, 0, 1, 7], TransformData.none), s') ∧ s'.rest = [9] :=
+  eb_prediction_layer_roundtrip exCh ({ builtin := false } : SeqEnc.EncOpts) 0 1 2 3 3 2 .texCoords exTriangle #[1, 2, 0] (some exParentE)
+    (some exParentD) #[0, 0, 8, 0, 1, 7] _ _ (by decide) (by simp [SchemeKindOK])
+    (fun p hp => ⟨exParentD, rfl, by cases hp; rfl, rfl, by cases hp; rfl, by cases hp; rfl⟩)
+    (by decide) (by decide) rfl rfl (by decide) (by decide) (fun h => absurd h (by decide)) (by decide) (by decide)
+    (fun h => by cases h)
+    exTexBlock _ [9] rfl rfl
+
+open Draco.EbEnc in
+/-- (b) **conditional round trip of a value block, encoder and decoder each on their own mesh data**
+    (`eb_roundtrip_conditional` at the level of one attribute value block): the encoder ran on its corner table
+    (`b.md`, `b.pointIds`, `b.parent`: recorded in `Encoded.blocks`), the decoder works on the table it decoded
+    (`mdD`, `pointIdsD`, `parentD`).  IF the executable checker `valueBlockHyps` reports no failing hypothesis —
+    `blockInvariant` (the block the encoder writes does not change when the encoder's mesh data are replaced by
+    the decoder's: what `CTIso` + `seams_correspond` + `traversal_equivariant` + equivariance of the predictions
+    are to deliver), `decParent` (the decoder's position attribute shows, entry by entry, the positions the encoder
+    predicted from: `assign_points_correspond` for the parent), `schemeKind`, `sizes`, `int32`, `normals`,
+    `corners`, `creaseCount` — THEN the decoder reads the block back: portable values, exactly the block consumed.
+    The op `ebenc` evaluates `valueBlockHyps` (and this conclusion) on every block of every generated case
+    (`hyp-ok`), so no hypothesis is unchecked there. -/
+theorem eb_value_block_conditional (ch : EbChoices) (o : SeqEnc.EncOpts) (b : ValueBlock) (n attComponents : Nat)
+    (mdD : MeshData) (pointIdsD : Array Nat) (parentD : Option Parent)
+    (hy : valueBlockHyps ch o b n mdD pointIdsD parentD = [])
+    (henc : encodeIntegerValuesEb ch o b.attId b.kind b.nc b.numValues b.scheme b.md b.pointIds b.parent b.portable =
+      .ok (b.outScheme, b.bytes))
+    (s : DSt) (extra : Bytes) (hs : s.rest = b.bytes ++ extra) (hsv : s.version = 514) :
+    ∃ s', decodeIntegerValuesEb b.kind n b.nc attComponents mdD pointIdsD parentD s =
+      (some (b.portable, TransformData.none), s') ∧ s'.rest = extra :=
+  let ⟨s', h1, h2, _⟩ := (value_block_checked ch o b n attComponents mdD pointIdsD parentD hy henc).run s extra hs hsv
+  ⟨s', h1, h2⟩
+
+open Draco.EbEnc in
+/-- the value block of `exTexBlock` as the encoder records it -/
+def exBlock : ValueBlock :=
+  { ctrl := 0, attId := 0, kind := 1, nc := 2, numValues := 3, scheme := .texCoords, md := exTriangle,
+    pointIds := #[1, 2, 0], parent := some exParentE, portable := #[0, 0, 8, 0, 1, 7], outScheme := .texCoords,
+    bytes := [5, 1, 0, 1, 0, 0, 1, 0, 5, 6, 1, 0, 0, 0, 255, 1, 17, 0, 0, 0, 0, 8, 0, 0, 0] }
+
+open Draco.EbEnc in
+/-- the checker accepts it -/
+theorem exBlockHyps : valueBlockHyps exCh ({ builtin := false } : SeqEnc.EncOpts) exBlock 3 exTriangle #[1, 2, 0]
+    (some exParentD) = [] := by
+  have h1 : effectiveScheme .texCoords #[0, 0, 8, 0, 1, 7] = .texCoords := by rfl
+  have h2 : encParentSource .texCoords #[1, 2, 0] (some exParentE) = .ok exPositions := by rfl
+  have hself : ∀ a : Eb.R Bytes, resEq a a = true := fun a => by cases a <;> simp [resEq]
+  unfold valueBlockHyps
+  simp only [exBlock, h1, h2, hself]
+  rfl
+
+open Draco.EbEnc in
+/-- non-vacuity -/
+example : ∃ s', decodeIntegerValuesEb 1 3 2 2 exTriangle #[1, 2, 0] (some exParentD)
+      { rest := exBlock.bytes ++ [9], version := 514 } =
+      (some (#[0, 0, 8, 0, 1, 7], TransformData.none), s') ∧ s'.rest = [9] :=
+  eb_value_block_conditional exCh ({ builtin := false } : SeqEnc.EncOpts) exBlock 3 2 exTriangle #[1, 2, 0]
+    (some exParentD) exBlockHyps exTexBlock _ [9] rfl rfl
+
+open Draco.EbEnc in
+/-- (b) **traversal equivariance** (`traversal_equivariant`): on isomorphic views (`TVIso`: corner map `φ` with
+    `φ (3 i) = order[i]`, vertex map `ψ`) the decoder's depth-first traversal from every face and the encoder's
+    traversal along `order` — both successful — visit corresponding corners in the same order: the entry → corner
+    maps correspond under `φ`, every visited vertex has the same entry index on both sides, and the point id of an
+    entry is the point of its corner.  (`traversal_equivariant_mpd`: the same for the prediction-degree traverser.) -/
+theorem eb_traversal_equivariant {d e : TView} {φ ψ : Nat → Nat} {facesD facesE : Array Nat} (h : TVIso d e φ ψ)
+    (order v2dInit : Array Nat) (v2dSize : Nat) (hsize : order.size = d.numFaces)
+    (horder : ∀ i, i < d.numFaces → order[i]! = φ (3 * i)) (outD outE : SeqOut)
+    (hD : depthFirst d facesD v2dSize = .ok outD) (hE : depthFirstOrder e facesE order v2dInit = .ok outE) :
+    (outE.d2c.size = outD.d2c.size ∧
+      ∀ p (hp : p < outD.d2c.size), outD.d2c[p] < 3 * d.numFaces ∧ outE.d2c[p]! = φ outD.d2c[p]) ∧
+    (∀ p (hp : p < outD.d2c.size) v, d.vertex outD.d2c[p] = .ok v → outD.v2d[v]? = some p ∧ outE.v2d[ψ v]? = some p) :=
+  let r := traversal_equivariant h order v2dInit v2dSize hsize horder outD outE hD hE
+  ⟨r.1, r.2.1⟩
+
+open Draco.EbEnc in
+/-- (b) **the predictions are equivariant** (`encodeSchemeBlock_iso`): on isomorphic mesh data (`MDIso`) — the decoder's
+    view having an involutive `Opposite` — the encoder writes the same value block, for every scheme -/
+theorem eb_prediction_equivariant {d e : MeshData} {φ ψ : Nat → Nat} (h : MDIso d e φ ψ) (hinv : OppInvol d.t)
+    (ch : EbChoices) (o : SeqEnc.EncOpts) (attId kind nc : Nat) (s : PScheme) (pos : PosSource) (portable : Array Int) :
+    encodeSchemeBlock ch o attId kind nc s e pos portable = encodeSchemeBlock ch o attId kind nc s d pos portable :=
+  encodeSchemeBlock_iso h hinv ch o attId kind nc s pos portable
+
+open Draco.EbEnc in
+/-- (b) **conditional round trip of a value block from the isomorphism of the VIEWS** (the chain `TVIso`
+    —`traversal_mdIso`→ `MDIso` —`encodeSchemeBlock_iso`→ block invariance —`runs_valueBlock`→ decode): the encoder
+    generated its sequence `seqE` on its view `b.md.t` along `processed` and wrote the block `b`; the decoder
+    generated `seqD` on ITS view `viewD` from every face (same traverser).  IF the checker `valueBlockHypsIso`
+    reports nothing — `tvIso` (the views are isomorphic under the corner map of `processed`: for the base table this
+    is `CTIso` (`tviso_of_ctiso`), for an attribute table it additionally says that the decoded seams are the images of
+    the encoder's seams, `seams_correspond`), `hedge` / `oppInvol` (the decoder's view is a consistent corner
+    table), `decParent` (`assign_points_correspond` for the parent attribute), `schemeKind`, `sizes`, `int32`,
+    `normals`, `corners`, `creaseCount` — THEN the decoder, on its own sequence, reads the block back.
+    Neither block invariance nor the correspondence of the two sequences is a hypothesis any more.
+    Evaluated by the op on every block of every case (`hyp-ok`). -/
+theorem eb_value_block_conditional_iso (ch : EbChoices) (o : SeqEnc.EncOpts) (b : ValueBlock) (attComponents : Nat)
+    (viewD : TView) (seqD seqE : SeqOut) (parentD : Option Parent) (processed psi back cback : Array Nat)
+    (facesD facesE v2dInit : Array Nat) (v2dSize : Nat)
+    (hy : valueBlockHypsIso ch o b viewD seqD parentD (phiOf processed) psi back cback = [])
+    (hsize : processed.size = viewD.numFaces)
+    (htrav : TraversalRuns viewD b.md.t facesD facesE processed v2dInit v2dSize seqD seqE)
+    (hmd : b.md = ⟨b.md.t, seqE.d2c, seqE.v2d⟩) (hpid : b.pointIds = seqE.pointIds)
+    (henc : encodeIntegerValuesEb ch o b.attId b.kind b.nc b.numValues b.scheme b.md b.pointIds b.parent b.portable =
+      .ok (b.outScheme, b.bytes))
+    (s : DSt) (extra : Bytes) (hs : s.rest = b.bytes ++ extra) (hsv : s.version = 514) :
+    ∃ s', decodeIntegerValuesEb b.kind seqD.pointIds.size b.nc attComponents ⟨viewD, seqD.d2c, seqD.v2d⟩ seqD.pointIds
+        parentD s = (some (b.portable, TransformData.none), s') ∧ s'.rest = extra :=
+  let ⟨s', h1, h2, _⟩ := (value_block_checked_iso ch o b attComponents viewD seqD seqE parentD processed psi back cback
+    facesD facesE v2dInit v2dSize hy hsize htrav hmd hpid henc).run s extra hs hsv
+  ⟨s', h1, h2⟩
+
+open Draco.EbEnc in
+set_option maxRecDepth 100000 in
+set_option maxHeartbeats 4000000 in
+/-- the decoder's traversal of the triangle -/
+theorem exTravD : depthFirst exTriangle.t #[0, 1, 2] 3 = .ok ⟨#[1, 2, 0], #[1, 2, 0], #[2, 0, 1]⟩ := by
+  simp [depthFirst, dfStack, Eb.dfInner, visitVertex, onNewVertex, faceVisited, faceOfCorner, exTriangle, TView.vertex, TView.opposite, TView.rightCorner,
+    TView.leftCorner, TView.isOnBoundary, TView.swingLeft, TView.numVertices, rd, wr, rdB, wrB, inv, Eb.nextC, Eb.prevC,
+    Std.Legacy.Range.forIn_eq_forIn_range', Std.Legacy.Range.size, bind, Except.bind, pure, Except.pure, List.range'_succ]
+  decide
+
+open Draco.EbEnc in
+set_option maxRecDepth 100000 in
+set_option maxHeartbeats 4000000 in
+/-- the encoder's traversal along `processed = [0]` -/
+theorem exTravE : depthFirstOrder exTriangle.t #[0, 1, 2] #[0] #[inv, inv, inv] =
+    .ok ⟨#[1, 2, 0], #[1, 2, 0], #[2, 0, 1]⟩ := by
+  simp [depthFirstOrder, onNewVertex, faceVisited, faceOfCorner, exTriangle, TView.vertex, TView.opposite, TView.rightCorner,
+    TView.leftCorner, TView.isOnBoundary, TView.swingLeft, TView.numVertices, rd, wr, rdB, wrB, inv, Eb.nextC, Eb.prevC,
+    Std.Legacy.Range.forIn_eq_forIn_range', Std.Legacy.Range.size, bind, Except.bind, pure, Except.pure, List.range'_succ]
+
+open Draco.EbEnc in
+/-- the checker accepts the block of `exTexBlock` against the decoder's traversal -/
+theorem exBlockHypsIso : valueBlockHypsIso exCh ({ builtin := false } : SeqEnc.EncOpts) exBlock exTriangle.t
+    ⟨#[1, 2, 0], #[1, 2, 0], #[2, 0, 1]⟩ (some exParentD) (phiOf #[0]) #[0, 1, 2] #[0, 1, 2] #[0, 1, 2] = [] := by
+  have h1 : effectiveScheme .texCoords #[0, 0, 8, 0, 1, 7] = .texCoords := by rfl
+  have h2 : encParentSource .texCoords #[1, 2, 0] (some exParentE) = .ok exPositions := by rfl
+  unfold valueBlockHypsIso
+  simp only [exBlock, h1, h2]
+  rfl
+
+open Draco.EbEnc in
+/-- non-vacuity: the triangle, traversed by both sides, tex-coords block -/
+example : ∃ s', decodeIntegerValuesEb 1 3 2 2 exTriangle #[1, 2, 0] (some exParentD)
+      { rest := exBlock.bytes ++ [9], version := 514 } =
+      (some (#[0, 0, 8, 0, 1, 7], TransformData.none), s') ∧ s'.rest = [9] :=
+  eb_value_block_conditional_iso exCh ({ builtin := false } : SeqEnc.EncOpts) exBlock 2 exTriangle.t
+    ⟨#[1, 2, 0], #[1, 2, 0], #[2, 0, 1]⟩ ⟨#[1, 2, 0], #[1, 2, 0], #[2, 0, 1]⟩ (some exParentD) #[0] #[0, 1, 2] #[0, 1, 2]
+    #[0, 1, 2] #[0, 1, 2] #[0, 1, 2] #[inv, inv, inv] 3 exBlockHypsIso rfl (Or.inl ⟨exTravD, exTravE⟩) rfl rfl exTexBlock
+    _ [9] rfl rfl
+
+open Draco.EbEnc in
+/-- (b) **seams_correspond**: under `CTIso` the encoder's loop over `processed` (`encodeSeamBits`: one bit per
+    attribute and interior edge, taken from the side whose face comes first) and the decoder's loop over its faces
+    (`decodeSeams`, bit decoders that yield the encoder's bits: `eb_bit_buffer_roundtrip`) meet the SAME edges in the
+    same order: the decoder succeeds and its seam corners of attribute `i` are exactly the boundary corners and the
+    corners — of the first of the two faces — whose image carries the encoder's seam flag.  `NoSelfOpp`: no corner
+    of the decoder's table is opposite to a corner of its own face (needed: there the decoder would read a bit the
+    encoder did not write; follows from the same property of the encoder's table, `CTIso.noSelfOpp`). -/
+theorem eb_seams_correspond {t : CT} {p : Array Nat} {n : Nat} {dc2v dopp : Array Nat}
+    (h : CTIso t p n dc2v dopp) (hC : t.numCorners ≤ inv) (hns : NoSelfOpp dopp n)
+    (edgeSeams : Array (Array Bool)) (encs : Array RAnsBitEnc) (seamBits : Array (Array Bool)) (decs : Array RAnsBitDec)
+    (he : encodeSeamBits t p edgeSeams = .ok (encs, seamBits))
+    (hds : decs.size = edgeSeams.size)
+    (hy : ∀ i (hi : i < decs.size), Yields RAnsBitDec.nextBit decs[i] (seamBits[i]!).toList) :
+    ∃ seams tags, decodeSeams false dopp n edgeSeams.size decs = .ok (seams, tags) ∧ seams.size = edgeSeams.size ∧
+      ∀ i, i < edgeSeams.size → ∀ c, c < 3 * n →
+        (c ∈ seams[i]! ↔
+          (dopp[c]! = inv ∨ (dopp[c]! ≠ inv ∧ c / 3 < dopp[c]! / 3 ∧ edgeSeams[i]![phi p c]! = true))) :=
+  seams_correspond h hC hns edgeSeams encs seamBits decs he hds hy
+
+open Draco.EbEnc in
+/-- (b) … and the seam FLAGS of the decoder's attribute table (`buildAttConn`, which marks the seam corners and their
+    opposites) are the images of the encoder's flags, when the encoder's flags are symmetric across an edge and set on
+    the boundary edges of the processed faces (what `InitFromAttribute` produces) and the encoder's `Opposite` is an
+    involution -/
+theorem eb_seam_flags_correspond {t : CT} {p : Array Nat} {n : Nat} {dc2v dopp : Array Nat}
+    (h : CTIso t p n dc2v dopp) (hC : t.numCorners ≤ inv) (hns : NoSelfOpp dopp n) (hinvol : CTOppInvol t)
+    (edgeSeams : Array (Array Bool)) (encs : Array RAnsBitEnc) (seamBits : Array (Array Bool)) (decs : Array RAnsBitDec)
+    (he : encodeSeamBits t p edgeSeams = .ok (encs, seamBits))
+    (hds : decs.size = edgeSeams.size)
+    (hy : ∀ i (hi : i < decs.size), Yields RAnsBitDec.nextBit decs[i] (seamBits[i]!).toList) :
+    ∃ seams tags, decodeSeams false dopp n edgeSeams.size decs = .ok (seams, tags) ∧ seams.size = edgeSeams.size ∧
+      ∀ i, i < edgeSeams.size →
+        (∀ c, c < t.numCorners → t.opp[c]! ≠ inv → edgeSeams[i]![t.opp[c]!]! = edgeSeams[i]![c]!) →
+        (∀ d, d < 3 * n → t.opp[phi p d]! = inv → edgeSeams[i]![phi p d]! = true) →
+        ∀ dvc a, buildAttConn dc2v dopp dvc seams[i]! = .ok a →
+          a.edgeSeam.size = 3 * n ∧ ∀ d, d < 3 * n → a.edgeSeam[d]! = edgeSeams[i]![phi p d]! :=
+  seam_flags_correspond h hC hns hinvol edgeSeams encs seamBits decs he hds hy
+
+open Draco.EbEnc Draco.EbEnc.Seams in
+/-- non-vacuity: two triangles sharing an edge, two attribute data (the edge is a seam of the first only); with
+    bit decoders opened on the encoder's buffers the decoder finds the corners 0 1 2 3 4 resp. 0 1 3 4 -/
+example : ∃ decs seams tags, decs.size = 2 ∧ decodeSeams false exDopp 2 2 decs = .ok (seams, tags) ∧
+    seams[0]!.toList = [0, 1, 2, 3, 4] ∧ seams[1]!.toList = [0, 1, 3, 4] := exA
+
+open Draco.EbEnc Draco.EbEnc.Seams in
+example : ∃ s, markSeams exDc2v exDopp #[0, 1, 2, 5] #[0, 1, 2, 3, 4] = .ok s ∧
+    ∀ d, d < 6 → s.1[d]! = exES[0]![phi #[3, 1] d]! := exB
+
+open Draco.EbEnc in
+/-- (b) the structural hypotheses `oppInvol` / `hedge` of `eb_value_block_conditional_iso` hold for every decoder view
+    that is `TVIso` to the BASE view of a table made by the proved `CornerTable.create` (the encoder's table) -/
+theorem eb_base_view_structural {faces : Faces} {table : CornerTable}
+    (hc : CornerTable.create faces = some table) {d : TView} {φ ψ : Nat → Nat}
+    (h : TVIso d (CT.ofTable table).view φ ψ) : OppInvol d ∧ Hedge d :=
+  structural_of_create hc h
+
+open Draco.EbEnc in
+/-- (b) **the ATTRIBUTE views are isomorphic** (equivariance of `RecomputeVertices`): base views `TVIso` (from CTIso:
+    `tviso_of_ctiso`), the encoder's table made by `CornerTable.create` with the images of the decoder's faces
+    non-degenerate, seam flags that correspond (`eb_seam_flags_correspond`), seam edges marked at their vertices
+    on both sides, and the two runs of `RecomputeVertices` (second loop of `buildAttConn` / `recomputeVertices`)
+    successful ⇒ the attribute views — what the per-corner attribute sequencers and prediction schemes work on —
+    are `TVIso` under the SAME corner map.  Table invariants taken as hypotheses: the recorded left-most corner of a
+    vertex is a corner of that vertex (`hvcD`, `hvcE`) and reaches every corner of the vertex by swinging right on the
+    decoder's side (`hcovD`; on the encoder's side this is `createF_fan_complete`). -/
+theorem eb_att_views_iso {faces : Faces} {table : CornerTable} (hc : CornerTable.create faces = some table)
+    (t : CT) (htab : t = CT.ofTable table)
+    (n : Nat) (dc2v dopp dvc : Array Nat) (φ ψ : Nat → Nat)
+    (hB : TVIso (baseViewD n dc2v dopp dvc) t.view φ ψ)
+    (hszc : dc2v.size = 3 * n) (hszo : dopp.size = 3 * n)
+    (hvcD : ∀ v, v < dvc.size → dvc[v]! ≠ inv → dvc[v]! < 3 * n ∧ dc2v[dvc[v]!]! = v)
+    (hcovD : ∀ d, d < 3 * n → ∃ k, iter (AttViews.sRP dopp) k dvc[dc2v[d]!]! = d)
+    (hvcE : ∀ v, v < t.vc.size → t.vc[v]! ≠ inv → t.vc[v]! < t.numCorners ∧ t.c2v[t.vc[v]!]! = v)
+    (hnd : ∀ d, d < 3 * n → faceDegenerate faces (φ d / 3) = false)
+    (seamCorners : Array Nat) (aD : AttConn) (hrD : buildAttConn dc2v dopp dvc seamCorners = .ok aD)
+    (esE vsE : Array Bool) (hesE : esE.size = t.numCorners)
+    (hflag : ∀ d, d < 3 * n → aD.edgeSeam[d]! = esE[φ d]!)
+    (hsvD : ∀ c, c < 3 * n → aD.edgeSeam[c]! = true → aD.vertSeam[dc2v[Eb.prevC c]!]! = true)
+    (hsvE : ∀ c, c < t.numCorners → esE[c]! = true → vsE[t.c2v[Eb.prevC c]!]! = true)
+    (c2vE lmE : Array Nat) (hrE : recomputeVertices t esE vsE = .ok (c2vE, lmE)) :
+    ∃ ψ', TVIso { c2v := aD.c2v, opp := dopp, seam := aD.edgeSeam, lm := aD.lm, isAtt := true, numFaces := n }
+      { c2v := c2vE, opp := t.opp, seam := esE, lm := lmE, isAtt := true, numFaces := t.numFaces } φ ψ' :=
+  att_views_iso_nondeg hc t htab n dc2v dopp dvc φ ψ hB hszc hszo hvcD hcovD hvcE hnd seamCorners aD hrD esE vsE hesE
+    hflag hsvD hsvE c2vE lmE hrE
+
+section AttViewsExample
+open Draco.EbEnc
+
+def exFaces1 : Faces := #[(0, 1, 2)]
+def exTable1 : CornerTable := (CornerTable.create exFaces1).get (by decide +kernel)
+theorem exCreate1 : CornerTable.create exFaces1 = some exTable1 := by simp [exTable1]
+def exCT1 : CT := ⟨#[0, 1, 2], #[inv, inv, inv], #[0, 1, 2], 0, 0⟩
+theorem exCT1_eq : exCT1 = CT.ofTable exTable1 := by
+  have h : (CT.ofTable exTable1).c2v = #[0, 1, 2] ∧ (CT.ofTable exTable1).opp = #[inv, inv, inv] ∧
+    (CT.ofTable exTable1).vc = #[0, 1, 2] ∧ (CT.ofTable exTable1).numDegenerated = 0 ∧
+    (CT.ofTable exTable1).numIsolated = 0 := by decide +kernel
+  rcases hh : CT.ofTable exTable1 with ⟨a, b, c, d, e⟩
+  rw [hh] at h
+  obtain ⟨rfl, rfl, rfl, rfl, rfl⟩ := h
+  rfl
+
+set_option maxRecDepth 20000 in
+theorem exBuild1 : buildAttConn #[0, 1, 2] #[inv, inv, inv] #[0, 1, 2] #[0, 1, 2] =
+    .ok ⟨#[true, true, true], #[true, true, true], #[0, 1, 2], #[0, 1, 2], true⟩ := by
+  simp [buildAttConn, wrB, rdB, wr, rd, Eb.vertex, Eb.opposite, Eb.swingRight, inv, Eb.nextC, Eb.prevC,
+    Std.Legacy.Range.forIn_eq_forIn_range', Std.Legacy.Range.size, bind, Except.bind, pure, Except.pure, List.range'_succ]
+  decide
+
+set_option maxRecDepth 20000 in
+theorem exRecompute1 : recomputeVertices exCT1 #[true, true, true] #[true, true, true] = .ok (#[0, 1, 2], #[0, 1, 2]) := by
+  simp [recomputeVertices, exCT1, CT.numCorners, rdB, wr, rd, Eb.opposite, Eb.swingRight, inv, Eb.nextC, Eb.prevC,
+    Std.Legacy.Range.forIn_eq_forIn_range', Std.Legacy.Range.size, bind, Except.bind, pure, Except.pure, List.range'_succ]
+  decide
+
+theorem three (d : Nat) (h : d < 3 * 1) : d = 0 ∨ d = 1 ∨ d = 2 := by omega
+
+/-- non-vacuity of `eb_att_views_iso`: one triangle, all three edges boundary seams -/
+example : ∃ ψ', TVIso { c2v := #[0, 1, 2], opp := #[inv, inv, inv], seam := #[true, true, true], lm := #[0, 1, 2], isAtt := true, numFaces := 1 }
+      { c2v := #[0, 1, 2], opp := exCT1.opp, seam := #[true, true, true], lm := #[0, 1, 2], isAtt := true, numFaces := exCT1.numFaces }
+      (phiOf #[0]) ψ' :=
+  eb_att_views_iso exCreate1 exCT1 exCT1_eq 1 #[0, 1, 2] #[inv, inv, inv] #[0, 1, 2] (phiOf #[0]) (fun v => #[0, 1, 2][v]!)
+    (tvIsoCheck_sound _ _ _ #[0, 1, 2] #[0, 1, 2] #[0, 1, 2] (by rfl)) rfl rfl
+    (by intro v hv; have : v = 0 ∨ v = 1 ∨ v = 2 := by (have : v < 3 := hv); omega
+        rcases this with rfl | rfl | rfl <;> decide)
+    (by intro d hd; rcases three d hd with rfl | rfl | rfl <;> exact ⟨0, by decide⟩)
+    (by intro v hv; have : v = 0 ∨ v = 1 ∨ v = 2 := by (have : v < 3 := hv); omega
+        rcases this with rfl | rfl | rfl <;> decide)
+    (by intro d hd; rcases three d hd with rfl | rfl | rfl <;> decide)
+    #[0, 1, 2] _ exBuild1 #[true, true, true] #[true, true, true] rfl
+    (by intro d hd; rcases three d hd with rfl | rfl | rfl <;> decide)
+    (by intro d hd; rcases three d hd with rfl | rfl | rfl <;> decide)
+    (by intro d hd; have : d = 0 ∨ d = 1 ∨ d = 2 := by (have : d < 3 := hd); omega
+        rcases this with rfl | rfl | rfl <;> decide)
+    _ _ exRecompute1
+
+end AttViewsExample
+
+open Draco.EbEnc in
+/-- (b) **CTIso as a proposition**: the Boolean checker the op evaluates on every case (`iso-ok`) implies the
+    Prop-level isomorphism `CTIso` (corner map injective into the encoder's table, opposite corners and boundary
+    edges correspond, two decoder corners carry the same vertex exactly when their images do) for tables that fit
+    the `uint32_t` index types and decoder corners that carry valid vertices -/
+theorem eb_ctiso_sound (t : CT) (processed : Array Nat) (numFaces : Nat) (dc2v dopp : Array Nat)
+    (hC : t.numCorners ≤ inv) (hV : t.numVertices ≤ inv) (hdv : ∀ d, d < 3 * numFaces → dc2v[d]! ≠ inv)
+    (h : ctIso t processed numFaces dc2v dopp = true) : CTIso t processed numFaces dc2v dopp :=
+  ctIso_sound t processed numFaces dc2v dopp hC hV hdv h
+
+open Draco.EbEnc in
+set_option maxRecDepth 8000 in
+/-- non-vacuity: two triangles sharing an edge, faces visited in the order 1, 0, the decoder's vertices renamed -/
+example : CTIso ⟨#[0, 1, 2, 2, 1, 3], #[5, inv, inv, inv, inv, 0], #[0, 1, 2, 5], 0, 0⟩ #[3, 1] 2
+    #[10, 11, 12, 11, 10, 13] #[inv, inv, 5, inv, inv, 2] := by
+  apply eb_ctiso_sound
+  · decide
+  · decide
+  · intro d hd
+    have : d = 0 ∨ d = 1 ∨ d = 2 ∨ d = 3 ∨ d = 4 ∨ d = 5 := by omega
+    rcases this with rfl | rfl | rfl | rfl | rfl | rfl <;> decide
+  · simp [ctIso, CT.numCorners, CT.numVertices, Id.run, Std.Legacy.Range.forIn_eq_forIn_range',
+      Std.Legacy.Range.size, List.range'_succ, inv, Eb.nextC, Eb.prevC, bind, pure]
 
 open Draco.EbEnc in
 /-- (c) under CTIso the decoder's corner table has exactly one face per face the encoder processed
